@@ -50,6 +50,7 @@ var hostile = [][]byte{
 	[]byte("\x81\\"), []byte("\x81."), []byte("\x8f."), []byte("\xa1."), []byte("\xa1\\"), []byte("\x81/"), []byte("\xe5\\"),
 	[]byte(".\x1b(B."), []byte(".\x1b(J."), []byte(".\x0f."), []byte(".~}."), []byte(".\x1b(B./"), []byte("\x1b$B..\x1b(B"),
 	[]byte("...zip"), []byte("..zip"), []byte(".zip"), []byte("x.zip"), []byte("..7z"), []byte("...gz"), []byte("...jar"),
+	[]byte("...tar.gz"), []byte("...tar.zip"), []byte("...zip.zip"), []byte("...ZIP"), []byte("x.tar.gz"),
 	// siblings of the destination whose names begin with the destination's name (a containment test by plain string
 	// prefix accepts them): the sandbox has <parent>/dest-sibling/, and the archive may create dest2, destx ...
 	[]byte("/../"), []byte("/../../"), []byte("//../"), []byte("/x/../../"),
@@ -105,9 +106,9 @@ func genArchive(t *rapid.T, label string, depth int) (zipgen.Archive, bool) {
 				e.Nested = &nested
 				anyHostile = anyHostile || nh
 				// nested archives carry a zip-like name; hostile stems included
-				ext := rapid.SampledFrom([]string{".zip", ".zip", ".jar", ".ZIP"}).Draw(t, fmt.Sprintf("%s-ext%d", label, i))
+				ext := rapid.SampledFrom([]string{".zip", ".zip", ".jar", ".ZIP", ".gz", ".7z"}).Draw(t, fmt.Sprintf("%s-ext%d", label, i))
 				if rapid.IntRange(0, 3).Draw(t, fmt.Sprintf("%s-hstem%d", label, i)) == 0 {
-					stem := rapid.SampledFrom([]string{"..", ".", "", "...", "a/..", "../x", "sub/.."}).Draw(t, fmt.Sprintf("%s-stem%d", label, i))
+					stem := rapid.SampledFrom([]string{"..", ".", "", "...", "a/..", "../x", "sub/..", "...tar", "..tar", "...zip", "...."}).Draw(t, fmt.Sprintf("%s-stem%d", label, i))
 					e.Name = []byte(stem + ext)
 					anyHostile = true
 				} else {
